@@ -116,4 +116,7 @@ TNext == /\ l < Len(Terms) /\ l' = l + 1 /\ UNCHANGED <<win, d>>
          /\ cur' = StateOf(l + 1).cur /\ res' = StateOf(l + 1).res
 TSpec == TInit /\ [][TNext]_tvars
 AllConsumed == TLCGet("stats").diameter = Len(Terms)
+\* the layer-I theorems (PregexImpl, ImplInfer) on the value of every judged, accepted term
+TLayerI == (res.ok /\ "*" \notin res.ex) =>
+             /\ PrecSafe(cur.v) /\ InferWrapSafeV(cur.v) /\ InferWrapAgreeV(cur.v) /\ InferRepeatSoundV(cur.v)
 =============================================================================
